@@ -120,6 +120,10 @@ def to_int(v):
     raise Unsupported(f"to_int of {T.show(v.ty)}")
 
 
+TRUTHY = z3.Function('truthy', T.OpaqueSort, z3.BoolSort())
+IS_NONE = z3.Function('opaque_is_none', T.OpaqueSort, z3.BoolSort())
+
+
 def truth(v):
     """Python truthiness"""
     k = v.ty[0]
@@ -141,7 +145,7 @@ def truth(v):
             return z3.Not(T.opt_is_none(v.ty, v.term))
         return z3.And(z3.Not(T.opt_is_none(v.ty, v.term)), truth(inner))
     if k == 'opaque':
-        return z3.Bool(fresh_name('truth'))
+        return TRUTHY(v.term)      # same abstracted value => same truth value
     if k in ('rec', 'tuple'):
         return z3.BoolVal(True)
     raise Unsupported(f"truth of {T.show(v.ty)}")
@@ -176,9 +180,22 @@ def join_types(a, b):
     return None
 
 
+_INJ = {}
+
+
+def inject_opaque(v):
+    """any value seen as an abstracted (opaque) one: an uninterpreted injection per sort"""
+    srt = T.sort_of(v.ty)
+    if srt not in _INJ:
+        _INJ[srt] = z3.Function('as_opaque_' + str(srt).replace(' ', '_'), srt, T.OpaqueSort)
+    return SymVal(T.OPAQUE, _INJ[srt](v.term))
+
+
 def coerce(v, ty):
     if v.ty == ty:
         return v
+    if ty == T.OPAQUE:
+        return inject_opaque(v)
     if ty == T.REAL and v.ty in (T.INT, T.BOOL):
         return SymVal(T.REAL, to_real(v))
     if ty == T.INT and v.ty in (T.BOOL, T.NAME):
@@ -203,6 +220,12 @@ def coerce(v, ty):
             pass
     if v.ty[0] in ('list', 'arr') and v.meta == ('empty',) and ty[0] in ('list', 'arr'):
         return empty_seq(ty)
+    if v.ty[0] == 'arr' and ty[0] == 'arr' and v.ty[1] == T.BOOL and ty[1] == T.INT:
+        # a numpy bool array read as integers: True -> 1, False -> 0 (element-wise)
+        ci = z3.Int('coerce_b2i')
+        at = T.acc(v.ty, 'at')(v.term)
+        return SymVal(ty, T.ctor(ty)(T.acc(v.ty, 'len')(v.term),
+                                     z3.Lambda([ci], z3.If(at[ci], z3.IntVal(1), z3.IntVal(0)))))
     if v.meta == ('empty',) and ty[0] == 'dict':
         return empty_dict(ty)
     if v.meta == ('empty',) and ty[0] == 'set':
